@@ -48,6 +48,7 @@ THEOREMS = [
     "BeyondVerif.C14.heap_init",
     "BeyondVerif.C14.two_states_same_epoch",
     "BeyondVerif.C14.derived_independent",
+    "BeyondVerif.C14.derived_path_independent",
     "BeyondVerif.C14W.old_setter_local_after_reframe_differs",
     "BeyondVerif.C14W.old_setter_frame_after_local_recovers",
     "BeyondVerif.C14W.current_model_path_independent",
@@ -64,14 +65,14 @@ LEVEL_TEXT = ("Lean theorems about a state-machine model of Cov (tag, _orb_frame
               "the covariance follows its state; Cov.copy is transparent. to_qsw/to_tnw (hand template) are orthonormal and rotation-equivariant. The same model text, "
               "instantiated with floats, is compared with the real Cov on random sequences fed with the real conversion matrices. "
               "Several objects in one process: a heap model (Model/CovHeap.lean) of the cells Cov objects are made of - array memory, `_data` dict, private state copy, "
-              "`_orb_frame` - with the cell sharing that Cov.__new__, Cov.copy, __array_finalize__ (k * c, a + b, views, copy.copy), pickling and sv.cov = c produce; no memo. "
+              "`_orb_frame` - with the cell sharing that Cov.__new__, Cov.copy, __array_finalize__ (k * c, a + b, views, copy.copy: a dict of its own, the template's `_orb_frame`), pickling and sv.cov = c produce; no memo. "
               "Proved for every matrix type: an operation on one object leaves every object sharing neither memory nor dict unchanged (hop_other, write_other, attach_other, "
               "svHop_other; step_other for every operation of the model, step_allSep: pairwise separation is invariant in a process that takes no numpy views), new objects share nothing with old ones except a view its base's memory (newCov/copyCov/pickle/derive/mkView_spec), and an interleaved run looked at "
               "through one object is the single-object run of the targets addressed to it (hops_project); over real matrices: each covariance ends as Mt C0 Mt^T for its OWN "
-              "state, matrix and last target whatever happens to the others (heap_path_independent, two_states_same_epoch, derived_independent). The heap model runs against "
+              "state, matrix and last target whatever happens to the others (heap_path_independent, two_states_same_epoch, derived_independent; derived_path_independent: e = k * c ends as k Mt C0 Mt^T for every target). The heap model runs against "
               "the real classes on random interleaved operation sequences over several states sharing date and frame.")
-LEVEL_NOTE = ("numpy views share memory with their base by definition (modelled, excluded from the separation theorems by hypothesis Sep); arrays made by numpy lack `_orb_frame` "
-              "and cannot reach or leave a regular frame (open finding C14-derived-array-no-orb-frame, modelled as is); composition laws of the orientation conversions are hypotheses (C02) tested numerically by the oracle; model hand-written, tied by correspondence; "
+LEVEL_NOTE = ("numpy views share memory with their base by definition (modelled, excluded from the separation theorems by hypothesis Sep); arrays made by numpy carry `_orb_frame` "
+              "since c5f38c8 and convert like any covariance (derived_path_independent); composition laws of the orientation conversions are hypotheses (C02) tested numerically by the oracle; model hand-written, tied by correspondence; "
               "R -> double gap by tolerance only; a Cov constructed with the name of a frame is outside the model (two open findings); "
               "Lean kernel + propext/Classical.choice/Quot.sound")
 TECHNIQUE = "Lean 4 proof (invariant over all hop sequences, Mathlib matrices) + kernel-decided witness of the guarded regression + differential correspondence of the same generic model on floats"
@@ -101,8 +102,7 @@ OPEN = [
     "composition laws of Orientation.convert_to (Laws) and the block shape of the conversion matrices (PosShape) are hypotheses here (C02 proves them); the oracle evaluates them on the real matrices",
     "local_orthonormal / local_equivariant are proved for the list model of to_qsw / to_tnw (templates/Local.tpl, R instantiation); the sequence theorems take orthogonality of toLocal at the original state as the matrix hypothesis LocOrth - the bridge between rows-as-lists and Matrix (Fin 3 + Fin 3) is not formalised",
     "`sv.cov = c` (StateVector.cov setter) re-seats the private copy of `c` without updating `_orb_frame`; the heap model and its correspondence reproduce this (op `att`, also with a covariance built for another state or frame), but no theorem says what such a covariance means: heap_path_independent starts from objects whose `_orb_frame` is the frame of their private copy (heap_init)",
-    "the model identifies a frame with its name; Frame objects compare by identity and unpickling rebuilds them, so an unpickled covariance attached on its own to a state does not follow it and an array derived from it raises on `e.frame = <its own frame>` (known finding C14-unpickled-frame-identity, open; proposed_fixes/C14-frame-identity-after-pickle.diff); the heap correspondence keeps these two situations out of its sequences, the oracle family `unpickled` reports them",
-    "arrays made by numpy out of a covariance have no `_orb_frame`: the setter raises AttributeError unless both tags are QSW/TNW (known finding C14-derived-array-no-orb-frame, open; proposed_fixes/C14-cov-derived-array-orb-frame.diff); heap_path_independent therefore speaks about objects made by Cov(...), Cov.copy, unpickling; for numpy-made arrays only independence from their source is proved (derived_independent)",
+    "the model identifies a frame with its name; Frame objects compare by identity and unpickling rebuilds them, so an unpickled covariance attached on its own to a state does not follow it (known finding C14-unpickled-frame-identity, open; proposed_fixes/C14-frame-identity-after-pickle.diff); the heap correspondence keeps these two situations out of its sequences, the oracle family `unpickled` reports them",
 ]
 RULE = ("heap correspondence: 2-4 states (mostly sharing date and frame, sometimes equal), a covariance per state built from every kind of `values` (lists of ints/floats, int32/int64/"
         "float32/float64 arrays, np.matrix, Fortran/strided arrays, a Cov), then 6-12 random operations on random objects: frame assignment, state frame assignment, k * c, c + d, "
